@@ -67,7 +67,7 @@ def gen(seed, idx, tier):
     if kind == "quadratic":
         q = [scen.r3(rnd.uniform(-0.15, 0.15)) for _ in range(3)]
     scn["gauge"] = {"c": c, "q": q}
-    return scn
+    return scen.maybe_restored(rnd, scn, 0.15)
 
 
 def traj(h):
